@@ -15,11 +15,13 @@
      gapped l          := eend o_i < ts o_{i+1} for neighbours
      inside x o        := ts o <= ts x /\ eend x <= eend o            (closed containment)
      count P lo n      := number of instants t in [lo, lo+n) with P t  (measure in µs)
+     wchain l          := 0 <= dur everywhere and, for every a before b in l, ts a <= ts b and ~ pos_overlap a b
+                          (Proofs/IntersectWide.v: sorted, no two events overlap for a positive time)
    The domain of the intersection theorems is stated on the function's own stable sort of each
    input (inputs come in any order). *)
 From AwVerif Require Import Base.Prelude Model.Timeslot Model.Intersect
   Proofs.IntersectSlot Proofs.IntersectSort Proofs.IntersectProofs
-  Proofs.IntersectUnion Proofs.IntersectMeasure.
+  Proofs.IntersectUnion Proofs.IntersectMeasure Proofs.IntersectWide.
 
 (* ------------------------------------------------------------------------------------ *)
 (* Timeslot (third party), for all slots, negative durations included                    *)
@@ -140,6 +142,41 @@ Theorem C09_intersect_measure : forall a b out lo n,
 Proof. exact fpi_measure. Qed.
 Print Assumptions C09_intersect_measure.
 
+(* The same exactness on a wider domain than DESIGN A.1's: after the function's own sort the
+   lists are sorted by start, durations are non-negative and no two events of a list overlap
+   for a POSITIVE time -- a zero-length event may sit inside, or share its start in either
+   order with, a positive-length event of its own list. *)
+Theorem C09_intersect_no_dup_wide : forall a b out,
+  wchain (sort_by ts a) -> wchain (sort_by ts b) ->
+  Forall aligned a -> Forall aligned b ->
+  filter_period_intersect a b = Ok out ->
+  filter pos_event out = spec_events (sort_by ts a) (sort_by ts b).
+Proof. exact fpi_exact_wide. Qed.
+Print Assumptions C09_intersect_no_dup_wide.
+
+Theorem C09_intersect_complete_wide : forall a b out e f,
+  wchain (sort_by ts a) -> wchain (sort_by ts b) ->
+  Forall aligned a -> Forall aligned b ->
+  filter_period_intersect a b = Ok out ->
+  In e a -> In f b -> pos_overlap e f ->
+  In (piece_event e f) out.
+Proof. exact fpi_complete_wide. Qed.
+Print Assumptions C09_intersect_complete_wide.
+
+(* total duration = sum of the overlap lengths over the positively overlapping pairs *)
+Theorem C09_intersect_total_duration_wide : forall a b out,
+  wchain (sort_by ts a) -> wchain (sort_by ts b) ->
+  Forall aligned a -> Forall aligned b ->
+  filter_period_intersect a b = Ok out ->
+  sumZ (map dur out) = sumZ (map dur (spec_events (sort_by ts a) (sort_by ts b))).
+Proof. exact fpi_total_duration_wide. Qed.
+Print Assumptions C09_intersect_total_duration_wide.
+
+(* the A.1 domain is inside the wide one *)
+Theorem C09_domain_inclusion : forall l, nonoverlapping l -> wchain l.
+Proof. exact (fun l H => chain_wchain l (nonoverlapping_chain l H)). Qed.
+Print Assumptions C09_domain_inclusion.
+
 (* ------------------------------------------------------------------------------------ *)
 (* period_union: arbitrary (mutually and internally overlapping, unsorted) inputs with     *)
 (* non-negative durations at ms granularity                                               *)
@@ -243,4 +280,22 @@ Example C09_measure_nonvacuous :
 Proof.
   cbv zeta. split; [vm_compute; reflexivity|].
   intros x [<-|[<-|[]]]; vm_compute; split; intro H; discriminate H.
+Qed.
+
+(* the wide domain really is wider: a zero-length event listed after a positive one with the
+   same start (the layout DESIGN A.1 leaves out) satisfies wchain but not nonoverlapping *)
+Example C09_wide_nonvacuous :
+  let e i t d x := mkEvent (Some i) (1000 * t) (1000 * d) x in
+  let a := [e 1 0 5 5; e 2 0 0 5; e 3 3 0 5] in
+  let b := [e 10 2 6 0] in
+  wchain (sort_by ts a) /\ ~ nonoverlapping (sort_by ts a) /\ wchain (sort_by ts b) /\
+  filter_period_intersect a b = Ok [e 1 2 3 5; e 3 3 0 5].
+Proof.
+  cbv zeta. split; [|split; [|split]].
+  - vm_compute. repeat split; try (intro H; discriminate H);
+      try (intros b [<-|[<-|[]]]); try (intros b [<-|[]]); try (intros b []); vm_compute;
+      repeat split; intro H; discriminate H.
+  - vm_compute. intros (_ & H & _). apply H. reflexivity.
+  - vm_compute. repeat split; try (intro H; discriminate H). intros b [].
+  - vm_compute. reflexivity.
 Qed.
